@@ -11,7 +11,9 @@ from collections import Counter
 from typing import Any, Dict, Iterable, List
 
 from harness.core import Case, Finding, VERIF
-from harness.props._doc import DocCheck, Gen, r_doc, all_paths, node_at, random_mutation, mark_nonconformant
+from harness.core import call, canon
+from harness.props._doc import (DocCheck, Gen, r_doc, all_paths, node_at, random_mutation, mark_nonconformant,
+                                serialise, dump_scan)
 from harness.props.c01 import read_doc, has_content, _kids, _tag
 
 CORPUS = os.path.join(VERIF, 'harness', 'corpus', 'C05')
@@ -42,6 +44,25 @@ def region_line_ids(r) -> List[Any]:
     return out + [l['id'] for l in r['lines']]
 
 
+def ro_variants(src) -> List[Dict[str, Any]]:
+    """other documents over the SAME regions (same ids) whose reading orders differ from the one of `src`: used to parse
+    several scans one after the other in one process.  (1) the entries re-numbered with other index values and the
+    regions in the opposite order (for a document without entries: full coverage, reverse document order), (2) no
+    ReadingOrder element at all, (3) an ordered group that leaves the last region out"""
+    ro = src['ro']
+    if ro['kind'] == 'ordered' and ro['refs']:
+        by_index = sorted(ro['refs'], key=lambda e: e[0])
+        refs = [[7 + 10 * k, by_index[len(by_index) - 1 - k][1]] for k in range(len(by_index))]
+    else:
+        ids = [r['id'] for r in src['regions'] if r['id'] is not None]
+        refs = [[7 + 10 * k, rid] for k, rid in enumerate(reversed(ids))]
+    out = [dict(src, ro={'kind': 'ordered', 'id': 'og-v', 'caption': None, 'refs': refs}, ro_first=not src['ro_first']),
+           dict(src, ro={'kind': 'absent'})]
+    if len(refs) >= 2:
+        out.append(dict(src, ro={'kind': 'ordered', 'id': 'og-p', 'caption': None, 'refs': refs[:-1]}))
+    return out
+
+
 class C05(DocCheck):
     pid = 'C05'
     model_pid = 'C05'
@@ -66,7 +87,10 @@ class C05(DocCheck):
         'orders delivered, not the falsy value kept in scan.reading_order; entries of unknown ids may stay or go), two '
         'rejections agree whatever the exception '
         'class, extra scan.metadata keys are ignored, mutated ReadingOrder elements that are no reading-order group any '
-        'more are outside the quantifier (recorded only)')
+        'more are outside the quantifier (recorded only). Histories (wave 4): every document is parsed a second and a '
+        'third time in the same process, with documents over the SAME region ids but other index values / no / a partial '
+        'reading order parsed in between (each judged against its own text), and the first scan object is read again '
+        'twice: the delivered orders and the kept entries must be those of a first parse (the model is pure)')
     assumptions = [
         'CPython sorted() with an integer key returns the ascending (stable) order — List.mergeSort',
         'dict assignment / iteration order as in CPython >= 3.7 (association lists)',
@@ -186,6 +210,34 @@ class C05(DocCheck):
         src = case.input['src']
         return len(src['regions']) >= 2 and src['ro']['kind'] != 'absent'
 
+    # ---------------------------------------------------------------- implementation: the document, then a history
+    def impl(self, case: Case) -> Any:
+        out = super().impl(case)
+        if case.kind != 'doc' or 'err' in out['real']:
+            return out
+        # several scans parsed one after the other in this process (the model is pure: every parse has the answer of
+        # a first parse): the same text again, documents over the same region ids with other reading orders, the
+        # same text a third time; the first scan object is read twice more in between (the orders it delivers must
+        # not depend on how often they were asked for or on what was parsed afterwards)
+        from pagexml.parser import parse_pagexml_file
+        fname, xml = case.input.get('fname', 'doc.xml'), out['xml']
+
+        def hist():
+            scan = parse_pagexml_file(fname, pagexml_data=xml)
+            first = dump_scan(scan)
+            others = []
+            for v in ro_variants(case.input['src']):
+                vx = serialise(r_doc(v))
+                vs = call(lambda: dump_scan(parse_pagexml_file(fname, pagexml_data=vx)))
+                others.append({'xml': vx, 'real': vs})
+            reread = dump_scan(scan)
+            scan.get_lines()
+            scan.get_text_regions_in_reading_order()
+            return {'second': first, 'others': others, 'reread': reread, 'reread2': dump_scan(scan),
+                    'third': dump_scan(parse_pagexml_file(fname, pagexml_data=xml))}
+        out['hist'] = canon(call(hist))
+        return out
+
     # ---------------------------------------------------------------- oracle
     def oracle(self, case: Case, out: Any) -> List[Finding]:
         if case.kind != 'doc':
@@ -202,9 +254,44 @@ class C05(DocCheck):
         if 'err' in real:
             bad('raises:' + real['err'], f'document with a reading order rejected with {real["err"]}')
             return fs
-        scan = real['ok']['scan']
-        exp = read_doc(out['xml'])
-        kind, entries = read_entries(out['xml'])
+        self.judge(case, out['xml'], real['ok']['scan'], bad, '')
+        h = out.get('hist')
+        if h is None or fs:
+            return fs
+        if 'err' in h:
+            bad('raises-later:' + h['err'], f'parsing the document again / other documents afterwards raised {h["err"]}')
+            return fs
+        h = h['ok']
+
+        def view(scan):
+            """what the statement observes of a scan: the orders delivered and the reading order kept (None = {};
+            entries of unknown ids may stay or go, as in `reading-order-kept` below)"""
+            ids = set(r['id'] for r in scan['regions'])
+            return {'text_regions': [r['id'] for r in scan['regions']], 'get_lines': scan['lines'],
+                    'get_text_regions_in_reading_order': scan['regions_in_ro'],
+                    'reading_order': sorted(e for e in map(tuple, scan['reading_order'] or []) if e[1] in ids)}
+        first = view(real['ok']['scan'])
+        for k, what in (('second', 'parsed a second time'), ('reread', 'the scan read again after other scans were parsed'),
+                        ('reread2', 'the scan read a third time'), ('third', 'parsed again after other scans')):
+            later = view(h[k])
+            if later != first:
+                diff = [f for f in first if first[f] != later[f]]
+                bad('not-repeatable:' + k, f'{what}: differs from the first parse in {diff}: '
+                                           f'{[first[f] for f in diff]} -> {[later[f] for f in diff]}')
+        for i, o in enumerate(h['others']):
+            if 'err' in o['real']:
+                bad('raises-later:' + o['real']['err'], f'a scan parsed after another one is rejected with {o["real"]["err"]}')
+            else:
+                self.judge(case, o['xml'], o['real']['ok'], bad, ':after-another-scan')
+        return fs
+
+    def judge(self, case: Case, xml: str, scan, bad0, tag: str) -> None:
+        """the statement on one parsed scan (dump) against its own source text, read independently"""
+        def bad(key, what):
+            bad0(key + tag, (what if not tag else 'parsed after other scans in the same process: ' + what))
+        fs = None
+        exp = read_doc(xml)
+        kind, entries = read_entries(xml)
         doc_ids = [r['id'] for r in exp['regions'] if has_content(r)]
         got_ids = [r['id'] for r in scan['regions']]
         # every region and every line exactly once
